@@ -559,12 +559,21 @@ Section RareFacts.
     split; [|exact G]. apply (wf_perm _ key_eq_dec); auto using rare_wf.
   Qed.
 
+  Lemma nodup_keysb_spec l : nodup_keysb l = true <-> NoDup l.
+  Proof.
+    induction l as [|k l IH]; cbn [nodup_keysb]; [split; [constructor|reflexivity]|].
+    rewrite andb_true_iff, negb_true_iff, IH. split.
+    - intros [M N]. constructor; [|assumption]. rewrite <- (memb_true _ key_eq_dec). congruence.
+    - intro N. inversion N as [|? ? Hn N']; subst. split; [|assumption].
+      destruct (memb key_eq_dec k l) eqn:M; [|reflexivity]. apply memb_true in M. contradiction.
+  Qed.
+
   (* the checker evaluated on implementation reports *)
   Lemma rare_checkb_sound rows rep : rare_checkb thr ncols rows rep = true ->
     NoDup (map fst rep) /\ (forall k c, In (k, c) rep <-> c = tot rows k /\ 0 < c /\ c <= thr).
   Proof.
     unfold rare_checkb. rewrite !andb_true_iff. intros [[H1 H2] H3].
-    destruct (NoDup_dec key_eq_dec (map fst rep)) as [N|]; [|discriminate]. split; [assumption|].
+    apply nodup_keysb_spec in H1. split; [assumption|].
     rewrite forallb_forall in H2, H3. intros k c. split.
     - intro I. specialize (H2 _ I). cbn [fst snd] in H2. lia.
     - intros (E & P & L). subst c.
@@ -575,7 +584,7 @@ Section RareFacts.
   Lemma rare_checkb_model (bs : list batch) : rare_checkb thr ncols (concat bs) (rare thr ncols bs) = true.
   Proof.
     destruct (rare_spec bs) as (N & S & G & _). unfold rare_checkb. rewrite !andb_true_iff. repeat split.
-    - destruct (NoDup_dec key_eq_dec (map fst (rare thr ncols bs))); [reflexivity|contradiction].
+    - apply nodup_keysb_spec. assumption.
     - apply forallb_forall. intros [k c] I. apply S in I. cbn [fst snd]. lia.
     - apply forallb_forall. intros k _. cbv zeta. rewrite G.
       destruct (Z.ltb_spec thr (tot (concat bs) k)); lia.
